@@ -572,6 +572,15 @@ class FormulaEngine3Phase(Generic[QuantityT]):
                 phase_1 = await phase_1_rx.receive()
                 phase_2 = await phase_2_rx.receive()
                 phase_3 = await phase_3_rx.receive()
+                # The per-phase engines synchronize their inputs independently, so
+                # they may start at different timestamps: skip ahead to the latest.
+                latest = max(phase_1.timestamp, phase_2.timestamp, phase_3.timestamp)
+                while phase_1.timestamp < latest:
+                    phase_1 = await phase_1_rx.receive()
+                while phase_2.timestamp < latest:
+                    phase_2 = await phase_2_rx.receive()
+                while phase_3.timestamp < latest:
+                    phase_3 = await phase_3_rx.receive()
                 msg = Sample3Phase(
                     phase_1.timestamp,
                     phase_1.value,
